@@ -260,4 +260,17 @@ theorem miss_arms_the_tee :
         | _, _ => false)
      | _, _ => false) = true := by decide +kernel
 
+/-- **A cache that cannot be set up is not an error of the run**: the failure of `gtsCacheDir()` and of
+`ioutil.TempFile` is answered by `return false, nil` and nothing else — `!r.usable` of `CacheProto.step`: the body runs
+uncached.  (Seeded C14-h returns the error: the command fails where `--no-cache` succeeds.) -/
+theorem cache_setup_failure_bypasses :
+    (match callsTo TC (some "") "gtsCacheDir", callsTo TC (some "ioutil") "TempFile" with
+     | [(g, _)], [(t, _)] =>
+       (match assignAt TC g, assignAt TC t with
+        | some ([_, e], ":=", [_]), some ([_, e'], ":=", [_]) =>
+          condAt TC (g + 1) == some (e ++ " != nil") && (bodyOf TC (g + 1)).map (·.2) == [("return", "false, nil")] &&
+          condAt TC (t + 1) == some (e' ++ " != nil") && (bodyOf TC (t + 1)).map (·.2) == [("return", "false, nil")]
+        | _, _ => false)
+     | _, _ => false) = true := by decide +kernel
+
 end Gts.Bridge.IoDelegate
